@@ -10,6 +10,7 @@ import (
 	"path/filepath"
 	"sort"
 	"strings"
+	"sync"
 	"sync/atomic"
 
 	"ariga.io/atlas/sql/schema"
@@ -333,6 +334,23 @@ func sortedKeys[V any](m map[string]V) []string {
 // evalDefault returns quote() of what a column of the given declared type holds after
 // `INSERT INTO x SELECT <expr>` -- the value IFNULL(col, <default>) yields for a NULL.
 func evalDefault(ctx context.Context, typ, expr string) (string, error) {
+	type res struct {
+		q   string
+		err error
+	}
+	key := typ + "\x00" + expr
+	if v, ok := defaultCache.Load(key); ok {
+		r := v.(res)
+		return r.q, r.err
+	}
+	q, err := evalDefaultUncached(ctx, typ, expr)
+	defaultCache.Store(key, res{q, err})
+	return q, err
+}
+
+var defaultCache sync.Map
+
+func evalDefaultUncached(ctx context.Context, typ, expr string) (string, error) {
 	db, err := sql.Open("sqlite3", ":memory:")
 	if err != nil {
 		return "", err
